@@ -453,3 +453,16 @@ fn ieee_classification() {
     assert!(0.0f64.is_finite(), "K.ieee_classification: 0.0 is finite");
 }
 
+/// K.ieee_max_min_commute: f64::max / f64::min are commutative as far as partial_cmp against any third
+/// value can tell (the max/min axioms of ax_obeys), for ALL triples (loop-free: complete).
+#[kani::proof]
+fn ieee_max_min_commute() {
+    let a: f64 = kani::any();
+    let b: f64 = kani::any();
+    let c: f64 = kani::any();
+    assert!(f64::max(a, b).partial_cmp(&c) == f64::max(b, a).partial_cmp(&c), "K.ieee_max_min_commute: max, left");
+    assert!(c.partial_cmp(&f64::max(a, b)) == c.partial_cmp(&f64::max(b, a)), "K.ieee_max_min_commute: max, right");
+    assert!(f64::min(a, b).partial_cmp(&c) == f64::min(b, a).partial_cmp(&c), "K.ieee_max_min_commute: min, left");
+    assert!(c.partial_cmp(&f64::min(a, b)) == c.partial_cmp(&f64::min(b, a)), "K.ieee_max_min_commute: min, right");
+}
+
